@@ -141,6 +141,10 @@ def gen_op(sch, rnd, g, doc, slices, kinds=None):
         m = gensteps.random_mark(sch, rnd, g)
         if m is None:
             return gen_op(sch, rnd, g, doc, slices, ["delete"])
+        if rnd.random() < 0.35:
+            sm = gensteps.seam_mark(sch, rnd, g, tk, n)
+            if sm is not None:
+                a, b, m = sm
         return Op(name, {"from": a, "to": b, "mark": m.to_json()}, lambda tr: tr.add_mark(a, b, m))
     if name == "remove_mark":
         a, b = pair()
